@@ -80,6 +80,35 @@ def _verify_one(args):
                 ob.inconclusive = ok is None      # None: the syntactic obligation does not recognise the code's shape
                 ob.defs = []
                 obs.append(ob)
+        elif qualname.startswith("lean:"):
+            # lemmas discharged by another back end: a Lean 4 + Mathlib file under /verif/lemmas, re-checked on every run;
+            # one obligation per theorem the property relies on (all of them stand or fall with the file)
+            import re
+            import subprocess
+            from .engine import Obligation as _Ob
+            out["kind"] = "lemma"
+            root = os.path.dirname(os.path.dirname(os.path.abspath(__file__)))
+            path = os.path.join(root, "lemmas", qualname[5:] + ".lean")
+            src = open(path).read()
+            theorems = re.findall(r"^theorem\s+(\w+)", src, flags=re.M)
+            t1 = time.time()
+            try:
+                pr = subprocess.run(["lean", path], capture_output=True, text=True, timeout=1500, cwd=root)
+                text = (pr.stdout + pr.stderr)
+                ok = pr.returncode == 0 and "error" not in text and "sorry" not in text and "sorry" not in src
+            except Exception as ex_:       # lean missing / timeout: no verdict
+                text, ok = "lean could not be run: %s" % ex_, False
+            dt = time.time() - t1
+            obs = []
+            for th in theorems:
+                ob = _Ob("%s/lean/%s" % (qualname, th), "lemma", z3.BoolVal(bool(ok)), [], 0,
+                         "lean lemmas/%s.lean (%.1fs)%s" % (qualname[5:], dt, "" if ok else ": " + text[-300:]))
+                ob.inconclusive = True      # a failure here says nothing about the code under check
+                ob.backend = "lean4+mathlib"
+                ob.defs = []
+                obs.append(ob)
+            out["lean"] = {"file": path, "theorems": theorems, "seconds": round(dt, 1), "ok": ok,
+                           "version": "Lean 4 + Mathlib (lean on PATH)"}
         elif qualname.startswith("effects:"):
             from . import effects
             out["kind"] = "effects"
@@ -197,7 +226,7 @@ def run(qualnames, timeout_ms=20000, jobs=None, dump=False):
     _ALL = []
     index = []
     # metric / axiom items do their (solver-assisted) generation and their few obligations in one worker each
-    self_contained = [q for q in qualnames if q.startswith(("metric:", "axioms:"))]
+    self_contained = [q for q in qualnames if q.startswith(("metric:", "axioms:", "lean:"))]
     done = {}
     if self_contained:
         ctx0 = mp.get_context("fork")
